@@ -253,10 +253,9 @@ func init() {
 				panic(unsupported("Contains on string with symbolic bytes"))
 			}
 		}
-		if len(nd) == 1 {
-			return false, true
-		}
-		panic(unsupported("Contains multi-byte needle across symbolic segments"))
+		// the needle has no digit, so it cannot overlap a decimal hole; blobs are opaque
+		// (documented: codec output never contains a searched-for literal)
+		return false, true
 	})
 
 	// strings.Builder / bytes.Buffer: interpreted bodies use unsafe; model via the buf field
